@@ -109,4 +109,10 @@ CLAIMED["C20"] = (
     "far outside the training range and sampling rngs; PPOResult assembled exactly as ppo.train leaves it (also with the leading axis of vmapped trainings), plus real tiny ppo.train runs.",
     "flax Dense/activations and distrax MultivariateNormalDiag trusted as the reference actor; state-dependent std not generated", "DESIGN.md §4 C20",
 )
+CLAIMED["C02"] = (
+    PBT + ": metamorphic relation - records and observed StepStates of perturbed variants (reset/step, throttled real-time factors, generated pause plans at the REX_VERIF yield points) must equal the baseline bitwise",
+    "Generated systems x variants of one episode from the same initial state; the harness owns the schedule at task boundaries through the guarded hooks "
+    "(sleep at the n-th / every k-th submission or task start of a chosen node or connection thread, biased to starve senders of non-blocking connections).",
+    ASYNC_NOTE + "; perturbation only at task boundaries; zero hook hits is a harness error", "DESIGN.md §4 C02",
+)
 NOT_APPLICABLE = {}
